@@ -17,16 +17,10 @@ for f in props/C*.json; do
     ./harness/bin/$h -facts "lean/$ff" || echo "setup: facts $ff failed"
   done
 done
-# Lean: every target named by a property config
-targets=$(python3 - <<'PY'
-import json,glob
-t=[]
-for f in sorted(glob.glob('props/C*.json')):
-    c=json.load(open(f))
-    t+=c['lean_targets']
-    if c.get('driver'): t.append(c['driver'])
-print(' '.join(dict.fromkeys(t)))
-PY
-)
-(cd lean && lake build $targets)
+# Lean: every target named by a property config, one property at a time so that one property's
+# failure cannot hide the others (./check reports a property whose targets do not build)
+for f in props/C*.json; do
+  t=$(python3 -c "import json;c=json.load(open('$f'));print(' '.join(c['lean_targets']+([c['driver']] if c.get('driver') else [])))")
+  (cd lean && lake build $t) || echo "setup: lean targets of $f did not build (the check will report it)"
+done
 echo "setup done"
